@@ -482,6 +482,28 @@ where
     }
 }
 
+/// Verification-only constructors and accessors.
+#[cfg(feature = "verif-hooks")]
+mod verif {
+    use super::*;
+
+    impl<T: Float + std::ops::AddAssign> Categorical<T> {
+        /// Like [`Categorical::new`] but with a caller-supplied generator (lets the uniform variate be chosen).
+        pub fn verif_with_rng(probs: Vec<T>, rng: SmallRng) -> Self {
+            let mut c = Self::new(probs);
+            c.rng = rng;
+            c
+        }
+    }
+
+    impl<T: Float> IsotropicGaussian<T> {
+        /// A copy of the proposal's private generator.
+        pub fn verif_rng(&self) -> SmallRng {
+            self.rng.clone()
+        }
+    }
+}
+
 /**
 A trait for conditional distributions.
 
